@@ -36,6 +36,10 @@ func loadProgram() (*Program, error) {
 		Dir:  harnessDir,
 		Env:  append(os.Environ(), "GOFLAGS=-mod=mod", "GOPROXY=off"),
 	}
+	// in-package exports for the harness are injected as an overlay (nothing is written to /repo)
+	if b, err := os.ReadFile(harnessDir + "/overlay/clientip_export.go.txt"); err == nil {
+		cfg.Overlay = map[string][]byte{"/repo/clientip/zz_verif_export.go": b}
+	}
 	initial, err := packages.Load(cfg, ".")
 	if err != nil {
 		return nil, err
